@@ -790,6 +790,9 @@ func (in *Interp) report(kind, site, class, msg string, wantModel bool) {
 				if sn, ok := v.(*fsSnapshot); ok && strings.HasPrefix(k, "fsimg:") {
 					m["fsimage:"+k[6:]] = in.imageJSON(sn, m)
 				}
+				if w, ok := v.(string); ok && (strings.HasPrefix(k, "crashop:") || strings.HasPrefix(k, "carry:")) {
+					m[k] = w
+				}
 			}
 			if in.fs != nil && len(in.fs.log) > 0 {
 				lg := in.fs.log
